@@ -181,6 +181,9 @@ pub enum FOp {
     RunSchedule,
     ShrinkReserve,
     Extend,
+    /// `Entry::add` (false) / `Entry::remove` (true) of component c on target t, the panic caught while the
+    /// `Entry` handle is still held, then the opposite operation and a query through the SAME handle
+    HandleReuse(u8, u8, bool),
 }
 
 impl FOp {
@@ -204,6 +207,8 @@ impl FOp {
             FOp::RunSchedule => "run_schedule",
             FOp::ShrinkReserve => "shrink_reserve",
             FOp::Extend => "extend_cloned_batch",
+            FOp::HandleReuse(_, _, false) => "entry_add_then_same_handle",
+            FOp::HandleReuse(_, _, true) => "entry_remove_then_same_handle",
         }
     }
 }
@@ -224,6 +229,13 @@ pub fn all_fops() -> Vec<FOp> {
         FOp::DropWorld, FOp::SerJson, FOp::SerTok(false), FOp::SerTok(true), FOp::DeJson, FOp::DeTok(false), FOp::DeTok(true), FOp::Eq, FOp::Debug,
         FOp::RunSystem, FOp::RunParSystem, FOp::RunSchedule, FOp::ShrinkReserve, FOp::Extend,
     ]);
+    // appended last so that the indices of the earlier operations (replay files) stay valid
+    for t in 0..2u8 {
+        for c in 0..4u8 {
+            v.push(FOp::HandleReuse(t, c, false));
+            v.push(FOp::HandleReuse(t, c, true));
+        }
+    }
     v
 }
 
@@ -263,7 +275,7 @@ pub struct Prep {
 fn prepare(ex: &Exec, fop: FOp, ops: &[Op]) -> Option<Prep> {
     let mut p = Prep { src: None, json: None, tokens: None, other: None };
     match fop {
-        FOp::Remove(t) | FOp::Add(t, _) | FOp::RemoveComp(t, _) => {
+        FOp::Remove(t) | FOp::Add(t, _) | FOp::RemoveComp(t, _) | FOp::HandleReuse(t, _, _) => {
             target(ex, t)?;
         }
         FOp::CloneFrom(0) => {
@@ -361,6 +373,54 @@ fn apply_fop(ex: &mut Exec, fop: FOp, prep: &mut Prep, extra: &mut Vec<W>) {
         FOp::Extend => {
             let ids = ex.w.extend(brood::entities!((A::make(950), B::make(951)); 3));
             let _ = ids;
+        }
+        FOp::HandleReuse(t, c, remove_first) => {
+            let id = target(ex, t).unwrap();
+            let mut e = ex.w.entry(mkid(id)).unwrap();
+            macro_rules! add {
+                ($e:expr) => {
+                    match c {
+                        0 => $e.add(A::make(900)),
+                        1 => $e.add(Z::make(0)),
+                        2 => $e.add(O::make(902)),
+                        _ => $e.add(B::make(903)),
+                    }
+                };
+            }
+            macro_rules! rem {
+                ($e:expr) => {
+                    match c {
+                        0 => $e.remove::<A, _>(),
+                        1 => $e.remove::<Z, _>(),
+                        2 => $e.remove::<O, _>(),
+                        _ => $e.remove::<B, _>(),
+                    }
+                };
+            }
+            let first = catch_unwind(AssertUnwindSafe(|| if remove_first { rem!(e) } else { add!(e) }));
+            // the handle is used again whether or not the first call unwound
+            if remove_first {
+                add!(e);
+            } else {
+                rem!(e);
+            }
+            add!(e);
+            if let Some(result!(a, z, o, b)) = e.query(Query::<Views!(Option<&A>, Option<&Z>, Option<&mut O>, Option<&B>)>::new()) {
+                if let Some(a) = a {
+                    a.read();
+                }
+                let _ = z;
+                if let Some(o) = o {
+                    let v = o.read().0;
+                    o.set(v);
+                }
+                if let Some(b) = b {
+                    b.read();
+                }
+            }
+            if let Err(p) = first {
+                std::panic::resume_unwind(p);
+            }
         }
     }
 }
